@@ -30,6 +30,7 @@ EXPLANATION = (
     "the record's own free_symbols on both reader paths and is passed to sympify as locals, no hidden state "
     "(mutable defaults, module-level caches) in the (de)serialiser. "
     "(D2w) custom-gate definitions are collected through modifier wrappers; (D5n) the stored text of a parameter is never parsed by float()/complex() (which accept the identifiers j, inf, nan) before the symbol table is consulted, also through helpers."
+    ' Round 5: the built-in lookup answers for the exact name only; same-name definitions are compared across the whole circuit (no groupby over unsorted input); the symbol table has one kind of value per slot; no unsound functools cache.'
 )
 RULE_TEXT = "instances = record keys per writer/reader pair, gate classes, constructor slots, routing tests, deserialiser functions; distinct by (rule, construct)"
 ASSUMPTIONS = [
